@@ -89,8 +89,22 @@ func fieldAlias(tag reflect.StructTag, name string, tags []string) string {
 	return name
 }
 
-func _getFields(t reflect2.StructType, tags []string, mapping map[string]struct{}, fields []FieldAccessor) []FieldAccessor {
+func _getFields(t reflect2.StructType, tags []string, mapping map[string]struct{}, fields []FieldAccessor, shadowed ...map[string]struct{}) []FieldAccessor {
 	n := t.NumField()
+	// a field of this struct shadows the fields of the same name that its embedded structs
+	// promote (as in Go itself): those are left out, they are not ambiguous
+	shadow := map[string]struct{}{}
+	for _, m := range shadowed {
+		for name := range m {
+			shadow[name] = struct{}{}
+		}
+	}
+	for i := 0; i < n; i++ {
+		f := t.Field(i)
+		if f.PkgPath() == "" && !(f.Anonymous() && f.Type().Kind() == reflect.Struct) {
+			shadow[fieldAlias(f.Tag(), f.Name(), tags)] = struct{}{}
+		}
+	}
 	for i := 0; i < n; i++ {
 		f := t.Field(i)
 		ft := f.Type()
@@ -104,7 +118,7 @@ func _getFields(t reflect2.StructType, tags []string, mapping map[string]struct{
 				// the fields of an embedded struct are addressed relative to the outer
 				// struct: shift them by the offset of the embedded struct.
 				n := len(fields)
-				fields = _getFields(ft.(reflect2.StructType), tags, mapping, fields)
+				fields = _getFields(ft.(reflect2.StructType), tags, mapping, fields, shadow)
 				if offset := f.Offset(); offset != 0 {
 					for j := n; j < len(fields); j++ {
 						fields[j].Field = embeddedField{fields[j].Field, offset}
@@ -121,6 +135,11 @@ func _getFields(t reflect2.StructType, tags []string, mapping map[string]struct{
 		name := fieldAlias(f.Tag(), f.Name(), tags)
 		if name == "-" {
 			continue
+		}
+		if len(shadowed) > 0 {
+			if _, ok := shadowed[0][name]; ok {
+				continue // shadowed by a field of an enclosing struct
+			}
 		}
 		if _, ok := mapping[name]; ok {
 			panic(fmt.Sprintf("hprose/io: ambiguous fields with the same name or alias: %s", name))
